@@ -9,11 +9,17 @@
       [spec_accept cfg_kid file]   the usable store and its active entry (by key id, else the first)
       [run_ok] / [run_prop]        the full specification of a run / what the property statement fixes of it
       [guard_F1], [guard_F2]       the inputs of the (repaired) findings C16-F1, C16-F2
-      [crun fx c sched (cinit st calls)]   (C16/Conc.v) any calls of Execute, step by step in any order, with reloads in between
+      [crun fx c sched (cinit st calls)]   (C16/Conc.v) any calls of Execute, step by step in any order, with reloads in between:
+                                   [sched] is any list of [SThread i | SReload file | SJwks | SWait d]; [pc_of i g] where call i stands
+                                   ([PInit], [PKeyed k0] after Hash(), [PMiss k0] after a miss, [PSigned k t] after signWithHash(),
+                                   [PRet t], [PDone r]); [result i g] what it returned; [published c st] the registry's key set;
+                                   [loaded c st] some file loads to [st]; [made st cl t] t is what [sign] yields from [st] for the
+                                   request of call [cl] at some instant with some jti; [sig_id st] = (kid, alg, private key);
+                                   [quiet c s] no event of [s] is an accepted reload
     Keys are indices into a pool; "signed by Priv k verifies under Pub k" and the
     parsing of PEM/X.509/JSON are trusted (see the level note). *)
 From HV Require Import Base.Prelude C16.Model C16.Spec C16.Proofs C16.Locks C16.LocksProofs
-  C16.Conc C16.ConcProofs C16.ConcExamples C16.ConcWindow.
+  C16.Conc C16.ConcProofs C16.ConcExamples C16.ConcWindow C16.ConcFine C16.ConcFineProofs.
 Open Scope string_scope.
 
 (** sub, iss, iat, nbf, exp, jti are the signer's, whatever the custom claims say;
@@ -375,3 +381,61 @@ Theorem C16_conc_return_after_reload :
     verifies t (published f2_cfg (g_st (crun fx_all f2_cfg (firstn 3 sched) (cinit (ex_st ex_A) [ex_call "alice" 1000000000000])))) = true.
 Proof. exact conc_return_after_reload. Qed.
 Print Assumptions C16_conc_return_after_reload.
+
+(** ------------------------------------------------------------------------------------------------
+    DOWN TO LOCK OPERATIONS AND FIELD ACCESSES (C16/ConcFine.v).  In the fine machine RLock / RUnlock / Lock /
+    Unlock and every single access to s.jwk, s.key, s.pubKeys are steps of their own, the RWMutex blocks (a
+    thread whose lock operation is not admitted stays where it is), a reload is a thread (parse outside the
+    lock; Lock; three assignments; Unlock) and so is a JWKS request.  [abs] forgets the inside of critical
+    sections ([abs_st]: while a reload holds the lock, the state it is installing; else the fields as they are);
+    [tr_sched] keeps of a fine schedule the steps that release a read lock, acquire the write lock, operate on
+    the cache or return.  Every fine schedule is then a schedule of the machine with atomic sections: *)
+Theorem C16_fine_is_atomic : forall fx c st calls files n fs,
+  abs (frun fx c fs (finit st calls files n)) =
+  crun fx c (tr_sched fx c (finit st calls files n) fs) (cinit st calls).
+Proof. exact fine_is_atomic. Qed.
+Print Assumptions C16_fine_is_atomic.
+
+(** ... step by step, with the invariant that a writer excludes readers and other writers, that what a reader
+    has copied so far are the current field values, and that the writer has assigned the fields it has passed *)
+Theorem C16_fine_refines : forall fx c s g, finv g ->
+  abs (frun fx c s g) = crun fx c (tr_sched fx c g s) (abs g) /\ finv (frun fx c s g).
+Proof. exact fine_refines. Qed.
+Print Assumptions C16_fine_refines.
+
+(** and so, for all interleavings at that level: a returned token belongs to the moment at which the call
+    itself releases the read lock of its Hash() section or of its signWithHash() section — [lin] = the
+    signer's three fields at that moment is what ONE file loaded, and the token is what Sign makes from it for
+    this request: signed with the key then active, naming its key id and algorithm, verifying against the key
+    set then published *)
+Theorem C16_fine_token_of_own_section : forall c st0 calls files n fs i th t,
+  loaded c st0 ->
+  nth_error (f_exs (frun fx_all c fs (finit st0 calls files n))) i = Some th -> et_pc th = EDone (Ok t) ->
+  exists fs1 fs2 cl thm,
+    fs = fs1 ++ FEx i :: fs2 /\ nth_error calls i = Some cl /\
+    let gm := frun fx_all c fs1 (finit st0 calls files n) in
+    nth_error (f_exs gm) i = Some thm /\
+    ((exists j, et_pc thm = EHRead j) \/ (exists k0 j k, et_pc thm = ESRead2 k0 j k)) /\
+    let lin := f_sh gm in
+    loaded c lin /\ made lin cl t /\
+    t_key t = s_key lin /\ t_kid t = j_kid (s_jwk lin) /\ t_alg t = j_alg (s_jwk lin) /\
+    verifies t (published c lin) = true.
+Proof. intro c. exact (fine_token_of_own_section fx_all eq_refl eq_refl c). Qed.
+Print Assumptions C16_fine_token_of_own_section.
+
+(** example (vm_compute): a reload waits for a reader, readers and a JWKS request wait for the reload, the
+    fields are torn in the middle of the write section where nobody can look; the translated schedule *)
+Theorem C16_fine_nonvacuous :
+  let g0 := finit (ex_st ex_A) [ex_call "alice" 1000000000000; ex_call "alice" 1001000000000] [ex_B] 1 in
+  let at_ n := frun fx_all f2_cfg (firstn n fx_sched) g0 in
+  exists t,
+    map et_pc (f_exs (at_ 27)) = [EDone (Ok t); EDone (Ok t)] /\ t_kid t = "key-b" /\
+    map rt_pc (f_rls (at_ 3)) = [RInit] /\ writers (at_ 5) = true /\
+    map et_pc (f_exs (at_ 8)) = [EKeyed (key_of fx_all f2_cfg (ex_st ex_A) (q_of "alice")); EInit] /\ f_jws (at_ 8) = [JInit] /\
+    s_jwk (f_sh (at_ 8)) = s_jwk (ex_st ex_B) /\ s_key (f_sh (at_ 8)) = s_key (ex_st ex_A) /\
+    f_sh (at_ 13) = ex_st ex_B /\ writers (at_ 13) = false /\
+    f_jwks (at_ 27) = [[spec_jwk (f2_entry 8 "key-b")]] /\
+    tr_sched fx_all f2_cfg g0 fx_sched =
+      [SThread 0; SReload ex_B; SThread 0; SThread 0; SThread 0; SThread 0; SJwks; SThread 1; SThread 1; SThread 1].
+Proof. exact fine_nonvacuous. Qed.
+Print Assumptions C16_fine_nonvacuous.
